@@ -13,7 +13,10 @@ ONE = {"mode": "one", "between": "settle"}
 
 class WSSession:
     def __init__(self, env: Any, carrier: str, seg: Optional[Dict[str, Any]] = None,
-                 tls: bool = False) -> None:
+                 tls: bool = False, h2_settings: Optional[Dict[int, int]] = None,
+                 direct: bool = False) -> None:
+        self.h2_settings = h2_settings
+        self.direct = direct  # HTTP/2: write straight to the connection (no segmentation)
         self.env = env
         self.carrier = carrier
         self.seg = seg or ONE
@@ -41,12 +44,15 @@ class WSSession:
             self._parse_h1()
             return self.status
         self.conn = env.connect(alpn="h2" if self.tls else None, tls=self.tls)
-        self.sender = SegSender(self.conn)
-        self.client = H2Client(self.sender)
+        if self.direct:
+            self.client = H2Client(self.conn, self.h2_settings)
+        else:
+            self.sender = SegSender(self.conn)
+            self.client = H2Client(self.sender, self.h2_settings)
         self.client.start()
-        await self.sender.flush(env, self.seg)
+        await self._flush()
         self.client.pump()
-        await self.sender.flush(env, self.seg)
+        await self._flush()
         headers = [(b":method", hs.get("method", "CONNECT").encode()),
                    (b":scheme", b"https" if self.tls else b"http"),
                    (b":authority", hs.get("host", "example.com").encode()),
@@ -72,13 +78,19 @@ class WSSession:
         self._parse_h2()
         return self.status
 
+    async def _flush(self) -> None:
+        if self.sender is not None:
+            await self.sender.flush(self.env, self.seg)
+        else:
+            await self.env.settle0()
+
     async def _pump(self) -> None:
-        assert self.client is not None and self.sender is not None
+        assert self.client is not None
         for _ in range(200):
-            await self.sender.flush(self.env, self.seg)
+            await self._flush()
             progressed = self.client.pump()
-            await self.sender.flush(self.env, self.seg)
-            if not progressed and not self.sender.out:
+            await self._flush()
+            if not progressed and not (self.sender is not None and self.sender.out):
                 break
 
     def _parse_h1(self) -> None:
@@ -111,7 +123,7 @@ class WSSession:
             await deliver(self.env, self.conn, data, seg)
             await self.env.settle0()
             return
-        assert self.client is not None and self.sender is not None
+        assert self.client is not None
         self.client.upload(self.sid, data, frame_plan or [], end_stream=False)
         old_seg, self.seg = self.seg, seg
         stalls = 0
